@@ -71,6 +71,18 @@ func init() {
 		Quiet()
 		return RunBer(a[1], a[2])
 	}
+	Modes["config"] = func(a []string) error {
+		if len(a) != 3 {
+			return fmt.Errorf("config <prefix> <cases.json> <out.ndjson>")
+		}
+		return RunConfig(a[0], a[1], a[2])
+	}
+	Modes["cfgstart"] = func(a []string) error {
+		if len(a) != 2 {
+			return fmt.Errorf("cfgstart <config.yaml> <supi>")
+		}
+		return CfgStart(a[0], a[1])
+	}
 	Modes["abmf"] = func(a []string) error {
 		if len(a) != 3 {
 			return fmt.Errorf("abmf <prefix> <behaviours.json> <out.ndjson>")
